@@ -57,7 +57,11 @@ fn one_case(ctx: &Ctx, out: &mut Outcome, rng: &mut Rng, idx: u64) {
     let nbuckets = 1 + rng.range(0, 2);
     let pre_cycles = if rng.chance(1, 2) { 1 + rng.usize(2) } else { 0 };
     let pre_cfg = compactor_config(rng);
-    let cfg = compactor_config(rng);
+    let mut cfg = compactor_config(rng);
+    // "all merge thresholds": now and then the degenerate ones, where a lone L0 chunk forms a group of its own
+    if rng.chance(1, 6) {
+        cfg.l0_merge_threshold = rng.usize(2);
+    }
     let extra_chunks = if pre_cycles > 0 { rng.usize(8) } else { 0 };
     let mut data_rng = rng.fork(1);
     let cfg_desc = format!(
